@@ -28,13 +28,13 @@ Theorem C10_pulls_prefix : forall W D q n x,
   pulls_in_order x (trace_k W D q n) /\ pulls_in_order x (trace_full W D q).
 Proof. intros W D q n x. split; [apply trace_k_pulls_in_order | apply trace_full_pulls_in_order]. Qed.
 
-(* consuming pulls only what it needs.  Inside F10 (quantifier-free, no or_ over different variable sets, every selected
-   variable bound by every true result of the condition -- a syntactic, decidable class, [f10]): at every moment a result
-   is handed out, in the n-stopped run for EVERY n, a domain has been exhausted ([End x] logged) only if some variable
-   that was pulled from BEFORE x was first pulled from has itself been pulled from at least twice -- i.e. only because
-   an enclosing loop moved past its first element, which is when a lazy nested-loop enumerator (variables in first-use
-   order, inner domains replayed from a cache) exhausts an inner domain too.  In particular the variable used first is
-   never exhausted while results are still being handed out, and before any loop has advanced no domain is. *)
+(* consuming pulls only what it needs.  Inside F10 (quantifier-free, no or_ over different variable sets -- a syntactic,
+   decidable class, [f10]; ANY selection, bound by the condition or not): at every moment a result is handed out, in the
+   n-stopped run for EVERY n, a domain has been exhausted ([End x] logged) only if some variable that was pulled from
+   BEFORE x was first pulled from has itself been pulled from at least twice -- i.e. only because an enclosing loop moved
+   past its first element, which is when a lazy nested-loop enumerator (variables in first-use order, inner domains
+   replayed from a cache) exhausts an inner domain too.  In particular the variable used first is never exhausted while
+   results are still being handed out, and before any loop has advanced no domain is. *)
 Theorem C10_demand : forall W D q n, f10 q = true ->
   demand_ok (trace_k W D q n) /\ demand_ok (trace_full W D q).
 Proof. intros W D q n H. split; [apply trace_k_demand | apply trace_full_demand]; exact H. Qed.
@@ -60,31 +60,48 @@ Theorem C10_spec_exec : forall t a b x,
   (pulls_in_orderb x t = true <-> pulls_in_order x t).
 Proof. intros t a b x. split; [apply demand_okb_iff | split; [apply prefixb_Prefix | apply pulls_in_orderb_iff]]. Qed.
 
-(* ---- outside F10 the demand bound is false of the faithful model: concrete witnesses ---- *)
-(* C10-a: an(entity(x)), x over a 5-element generator, no condition: itertools.product drains the whole domain
-   (5 pulls and the generator's end) before the first row exists *)
+(* ---- repaired: finding C10-a (32abf51).  The evaluator before the repair ([trace_k_product]: itertools.product over the
+   selected expressions' generators) drained the whole domain before the first row; the evaluator as it is now pulls one
+   element.  Kept as regression witnesses (corpus/C10/kf_product.json, product_unbound.json). ---- *)
+(* an(entity(x)), x over a 5-element generator, no condition *)
 Definition w_product : ecase :=
   {| e_world := [(1, 1, []); (2, 2, []); (3, 3, []); (4, 4, []); (5, 5, [])]%Z;
      e_doms := [(0%nat, [VO 1; VO 2; VO 3; VO 4; VO 5])]%Z;
      e_query := {| q_sels := [OVar 0]; q_cond := None |} |}.
-Theorem C10_refuted_product :
-  f10 (e_query w_product) = false /\
-  trace_k (mk_world (e_world w_product)) (mk_domains (e_doms w_product)) (e_query w_product) 1
+Theorem C10_fixed_product :
+  let W := mk_world (e_world w_product) in let D := mk_domains (e_doms w_product) in
+  f10 (e_query w_product) = true /\
+  trace_k W D (e_query w_product) 1 = [Pull 0 0; Yield [VO 1%Z]] /\
+  trace_k_product W D (e_query w_product) 1
     = [Pull 0 0; Pull 0 1; Pull 0 2; Pull 0 3; Pull 0 4; End 0; Yield [VO 1%Z]] /\
-  demand_okb (trace_k (mk_world (e_world w_product)) (mk_domains (e_doms w_product)) (e_query w_product) 1) = false.
-Proof. split; [|split]; vm_compute; reflexivity. Qed.
+  demand_okb (trace_k_product W D (e_query w_product) 1) = false.
+Proof. repeat split; vm_compute; reflexivity. Qed.
 
-(* the same with a condition that binds x but not the second selected variable y: an(set_of([x, y], x.a >= 1)) *)
+(* an(set_of([x, y], x.a >= 1)): y is not bound by the condition *)
 Definition w_product2 : ecase :=
   {| e_world := [(1, 1, [(0%nat, VI 1)]); (2, 2, [(0%nat, VI 1)]); (3, 3, [(0%nat, VI 0)]); (4, 4, [(0%nat, VI 0)])]%Z;
      e_doms := [(0%nat, [VO 1; VO 2]); (1%nat, [VO 3; VO 4])]%Z;
      e_query := {| q_sels := [OVar 0; OVar 1]; q_cond := Some (CCmp OpGe (OAttr (OVar 0) 0) (OLit (VI 1))) |} |}.
-Theorem C10_refuted_product_unbound :
-  f10 (e_query w_product2) = false /\
-  trace_k (mk_world (e_world w_product2)) (mk_domains (e_doms w_product2)) (e_query w_product2) 1
-    = [Pull 0 0; Get 1 0; Pull 1 0; Pull 1 1; End 1; Yield [VO 1; VO 3]%Z] /\
-  demand_okb (trace_k (mk_world (e_world w_product2)) (mk_domains (e_doms w_product2)) (e_query w_product2) 1) = false.
-Proof. split; [|split]; vm_compute; reflexivity. Qed.
+Theorem C10_fixed_product_unbound :
+  let W := mk_world (e_world w_product2) in let D := mk_domains (e_doms w_product2) in
+  f10 (e_query w_product2) = true /\
+  trace_k W D (e_query w_product2) 1 = [Pull 0 0; Get 1 0; Pull 1 0; Yield [VO 1; VO 3]%Z] /\
+  trace_k_product W D (e_query w_product2) 1 = [Pull 0 0; Get 1 0; Pull 1 0; Pull 1 1; End 1; Yield [VO 1; VO 3]%Z] /\
+  demand_okb (trace_k_product W D (e_query w_product2) 1) = false.
+Proof. repeat split; vm_compute; reflexivity. Qed.
+
+(* the demand bound is relative to a single-pass enumerator: with or_ over different variable sets the second pass of
+   Union enumerates the right operand's variable again after everything was exhausted -- outside F10, not a defect:
+   an(entity(y, or_(x.a >= 1, y.a >= 1))) *)
+Definition w_union : ecase :=
+  {| e_world := [(1, 1, [(0%nat, VI 0)]); (2, 2, [(0%nat, VI 1)])]%Z;
+     e_doms := [(0%nat, [VO 1]); (1%nat, [VO 2])]%Z;
+     e_query := {| q_sels := [OVar 1]; q_cond := Some (mk_or (CCmp OpGe (OAttr (OVar 0) 0) (OLit (VI 1)))
+                                                             (CCmp OpGe (OAttr (OVar 1) 0) (OLit (VI 1)))) |} |}.
+Theorem C10_outside_union :
+  f10 (e_query w_union) = false /\
+  demand_okb (trace_full (mk_world (e_world w_union)) (mk_domains (e_doms w_union)) (e_query w_union)) = false.
+Proof. split; vm_compute; reflexivity. Qed.
 
 (* a query inside F10 with three results: the hypotheses are satisfiable and the statements say something:
    an(set_of([x, y], and_(x.a >= 1, y.a <= x.a))) -- stopping after the first row has pulled 2 of x's 3 and 1 of y's 2 elements *)
@@ -108,5 +125,6 @@ Print Assumptions C10_pulls_prefix.
 Print Assumptions C10_demand.
 Print Assumptions C10_reeval.
 Print Assumptions C10_spec_exec.
-Print Assumptions C10_refuted_product.
-Print Assumptions C10_refuted_product_unbound.
+Print Assumptions C10_fixed_product.
+Print Assumptions C10_fixed_product_unbound.
+Print Assumptions C10_outside_union.
